@@ -7,11 +7,11 @@ for name in "$@"; do
   rm -rf $W; git -C /repo worktree prune; git -C /repo worktree add --detach $W HEAD >/dev/null 2>&1 || { echo "$name: worktree failed"; continue; }
   (
   cd $W
-  PAR=OFF; DEMOPAR=-1; LIBS=""
+  PAR=OFF; DEMOPAR=-1; LIBS=""; CLIB=""; grep -q "lmanifoldc" $D/HOWTO.txt && CLIB="-lmanifoldc"
   if grep -q "MANIFOLD_PAR=ON" $D/HOWTO.txt; then PAR=ON; DEMOPAR=1; LIBS="-ltbb"; fi
   # (gtest discovery runs the test binary with a 5 s timeout at build time: retry the build on a loaded machine)
   cfg() { cmake -G Ninja -B $1 -DCMAKE_BUILD_TYPE=RelWithDebInfo -DMANIFOLD_CBIND=ON -DMANIFOLD_TEST=ON -DMANIFOLD_PAR=$2 -DCMAKE_CXX_FLAGS=-Wno-error >/dev/null 2>&1 && { nice cmake --build $1 -j6 >/dev/null 2>&1 || { sleep 10; nice cmake --build $1 -j6 >/dev/null 2>&1; } || { sleep 20; nice cmake --build $1 -j6 >/dev/null 2>&1; }; }; }
-  demo() { g++ -std=c++17 -O1 -g -I include -I src -DMANIFOLD_PAR=$DEMOPAR $D/demo.cpp -L $1/src -lmanifold -Wl,-rpath,$W/$1/src $LIBS -lpthread -o $W/demo_$1 2>$W/demo_build.log && timeout 900 $W/demo_$1 > $W/demo_$1.out 2>&1; echo $?; }
+  demo() { g++ -std=c++17 -O1 -g -I include -I src -I bindings/c/include -DMANIFOLD_PAR=$DEMOPAR $D/demo.cpp -L $1/src -L $1/bindings/c $CLIB -lmanifold -Wl,-rpath,$W/$1/src -Wl,-rpath,$W/$1/bindings/c $LIBS -lpthread -o $W/demo_$1 2>$W/demo_build.log && timeout 900 $W/demo_$1 > $W/demo_$1.out 2>&1; echo $?; }
   PATCH=$D/patch.diff; [ -f $D/patch_ported.diff ] && PATCH=$D/patch_ported.diff   # ported = same change re-based on the hooked tree
   git apply $PATCH 2>/dev/null || git apply --3way $PATCH || { echo '{"applies": false}' > $D/confirm.json; exit; }
   cfg _b OFF; built=$?
